@@ -48,6 +48,10 @@ func c02Arbitrary() *c02State {
 	}
 	if rt.Tier() > 0 {
 		st.size = rt.Choose("buckets", maxBuckets) + 1
+		rtCounts = 3 // 0..2 latency samples per bucket
+		if st.size == 3 {
+			rtCounts = 2 // three buckets: 0..1 latency samples per bucket
+		}
 	} else {
 		st.size = 2 // quick: two buckets (one visible under IgnoreCurrentBucket, both after a bucket boundary)
 	}
@@ -63,7 +67,7 @@ func c02Arbitrary() *c02State {
 	pb, rb := s.passCounter.VerifBuckets(), s.rtCounter.VerifBuckets()
 	for i := 0; i < st.size; i++ {
 		ps := rt.Int("passSum", 0, maxPass)
-		cnt := int64(rt.Choose("rtCount", rtCounts)) // 0..2 (quick) / 0..3 (thorough) samples in the latency bucket (divisor concrete)
+		cnt := int64(rt.Choose("rtCount", rtCounts)) // 0..1 (quick) / 0..2 (thorough; 0..1 with 3 buckets) samples in the latency bucket (divisor concrete)
 		rs := rt.Int("rtSum", 0, 1<<20)
 		pb[i].Sum, pb[i].Count = ps, ps
 		rb[i].Sum, rb[i].Count = rs, cnt
@@ -128,7 +132,7 @@ func (st *c02State) capacity() float64 {
 }
 
 //verif:entry tier=quick,thorough steps=400000 recycle=1 cover=shed,admitted,hot,overloaded,idle,cooledoff
-//verif:doc Allow from an arbitrary state: 2 buckets (quick) / 1..3 (thorough) of 100 ms with symbolic pass counts (0..1 quick / 0..8 thorough per bucket), latency sums (0..2^20) over 0..1 / 0..3 samples per bucket, flying in [0,2^20], avgFlying in [0,2^20], droppedRecently, overloadTime, cpu 0..1000, threshold 1..999, clock symbolic. Shed only if (cpu >= threshold or still hot) and flying > 10% of capacity; with nothing in flight never shed; in-flight accounting exact.
+//verif:doc Allow from an arbitrary state: 2 buckets (quick) / 1..3 (thorough) of 100 ms with symbolic pass counts (0..1 quick / 0..8 thorough per bucket), latency sums (0..2^20) over 0..1 / 0..2 samples per bucket (0..1 with 3 buckets), flying in [0,2^20], avgFlying in [0,2^20], droppedRecently, overloadTime, cpu 0..1000, threshold 1..999, clock symbolic. Shed only if (cpu >= threshold or still hot) and flying > 10% of capacity; with nothing in flight never shed; in-flight accounting exact.
 func Verif_C02_Allow() {
 	st := c02Arbitrary()
 	s := st.s
